@@ -550,6 +550,27 @@ func (in *inst) canon(t *testing.T) string {
 	return sb.String()
 }
 
+// boundarySigt parses "at:<k>:<off>": the signing time of the k-th accepted event (1-based, any DID) plus off seconds.
+func boundarySigt(s string) (k, off int, ok bool) {
+	if n, _ := fmt.Sscanf(s, "at:%d:%d", &k, &off); n == 2 {
+		return k, off, true
+	}
+	return 0, 0, false
+}
+
+// exactTier: the shape honest nodes produce - prevs name the latest version of every DID and the signing time is not
+// before the newest accepted event (now, or exactly equal to / one second after its signing time).
+func exactTier(e event, nAcc int) bool {
+	if e.Prevs != "latest" {
+		return false
+	}
+	if e.Sigt == "now" {
+		return true
+	}
+	k, off, ok := boundarySigt(e.Sigt)
+	return ok && k == nAcc && off >= 0
+}
+
 func (in *inst) prevs(mode string) ([]hash.SHA256Hash, uint32) {
 	var out []hash.SHA256Hash
 	clock := uint32(0)
@@ -589,6 +610,9 @@ func (in *inst) makeTx(t *testing.T, e event, payload []byte) dag.Transaction {
 	sigt := t0.Add(time.Duration(in.nAcc+1) * time.Minute)
 	if e.Sigt == "backdated" {
 		sigt = t0.Add(-time.Hour)
+	} else if k, off, ok := boundarySigt(e.Sigt); ok {
+		// the k-th accepted event was signed at t0 + k minutes ("now" at that moment)
+		sigt = t0.Add(time.Duration(k)*time.Minute + time.Duration(off)*time.Second)
 	}
 	ps := make([]string, len(prevs))
 	for i, p := range prevs {
@@ -678,7 +702,7 @@ func (in *inst) signerFor(t int) (int, int, bool) {
 			continue
 		}
 		w := in.m.versions[c][n-1]
-		if c != t && w.deactivated() {
+		if c != t && !in.m.active(c, 1) {
 			continue
 		}
 		for _, k := range w.Doc.CapInv {
@@ -749,12 +773,72 @@ func (in *inst) probes() []event {
 				}
 			}
 		}
+		// (a') boundary instants: prevs latest, signing time exactly equal to / one second before / after the signing time of
+		// every accepted event (every update and deactivation time of the history)
+		for kd := 0; kd < nDIDs; kd++ {
+			for j := 0; j < nKeys; j++ {
+				for k := 1; k <= in.nAcc; k++ {
+					for _, off := range []int{-1, 0, 1} {
+						out = append(out, event{Kind: "update", Doc: docAddKey(i, j), SignKey: j, KidDID: kd, Prevs: "latest", Sigt: fmt.Sprintf("at:%d:%+d", k, off)})
+					}
+				}
+			}
+		}
 		// (b) well-formedness: an authorised signer (if the model knows one) with every document variant
 		if kd, key, ok := in.signerFor(i); ok {
 			for _, d := range docVariants(i) {
 				out = append(out, event{Kind: "update", Doc: d, SignKey: key, KidDID: kd, Prevs: "latest", Sigt: "now"})
 			}
 		}
+	}
+	return out
+}
+
+// startStates builds the structured histories. Every step is an honest building event signed by a model-authorised key.
+func startStates(t *testing.T) []node {
+	type step struct {
+		did int
+		doc docSpec
+	}
+	c := func(i int) step { return step{i, docOwn(i)} }
+	plans := [][]step{
+		// chain 0 -> 1 -> 2, the middle document is controlled but carries its own capabilityInvocation key, tail deactivated
+		{c(0), c(1), c(2), {0, docCtrl(0, false, 1)}, {1, docCtrl(1, true, 2)}, {2, docDeact(2)}},
+		// the same with an active tail
+		{c(0), c(1), c(2), {0, docCtrl(0, false, 1)}, {1, docCtrl(1, true, 2)}},
+		// middle document without keys of its own, tail deactivated
+		{c(0), c(1), c(2), {0, docCtrl(0, false, 1)}, {1, docCtrl(1, false, 2)}, {2, docDeact(2)}},
+		// middle document names itself and the tail, tail deactivated
+		{c(0), c(1), c(2), {0, docCtrl(0, false, 1)}, {1, docCtrl(1, true, 1, 2)}, {2, docDeact(2)}},
+		// controller rotated to key 3, a third self-controlled document lists key 3 too, controller deactivated LAST
+		{c(0), c(1), c(2), {0, docCtrl(0, false, 1)}, {1, docRotate(1, 3)}, {2, docRotate(2, 3)}, {1, docDeact(1)}},
+		// directly deactivated controller
+		{c(0), c(1), {0, docCtrl(0, false, 1)}, {1, docDeact(1)}},
+		// two controllers, one deactivated
+		{c(0), c(1), c(2), {0, docCtrl(0, false, 1, 2)}, {1, docDeact(1)}},
+		// cycle 0 -> 1 -> 2 -> 0 in which only the middle document carries a key
+		{c(0), c(1), c(2), {0, docCtrl(0, false, 1)}, {1, docCtrl(1, true, 2)}, {2, docCtrl(2, false, 0)}},
+	}
+	var out []node
+	for pi, plan := range plans {
+		in := newInst(t)
+		var hist []event
+		for si, st := range plan {
+			e := event{Kind: "create", Doc: st.doc, SignKey: st.did, Prevs: "latest", Sigt: "now"}
+			if len(in.m.versions[st.did]) > 0 {
+				kd, key, ok := in.signerFor(st.did)
+				if !ok {
+					t.Fatalf("harness: start state %d step %d: no authorised signer", pi, si)
+				}
+				e = event{Kind: "update", Doc: st.doc, SignKey: key, KidDID: kd, Prevs: "latest", Sigt: "now"}
+			}
+			if ok, err, _ := in.offer(t, e, true); !ok {
+				t.Fatalf("harness: start state %d step %d (%s) refused: %v", pi, si, e, err)
+			}
+			hist = append(hist, e)
+		}
+		in.close()
+		out = append(out, node{hist: hist})
 	}
 	return out
 }
@@ -808,6 +892,9 @@ func signerClass(m *model, e event) string {
 				if m.versions[c][len(m.versions[c])-1].deactivated() {
 					return "key-of-deactivated-controller"
 				}
+				if k == len(m.versions[c])-1 && !m.active(c, 1) {
+					return "key-of-controller-without-active-controller"
+				}
 				if k < len(m.versions[c])-1 {
 					return "removed-key-of-controller"
 				}
@@ -832,7 +919,7 @@ type counters struct {
 func judge(r *ev.Run, in *inst, hist []event, e event, accepted bool, err error, cnt *counters) {
 	m := &in.m
 	rcase := map[string]any{"history": hist, "event": e}
-	tier2 := e.Prevs == "latest" && e.Sigt == "now"
+	tier2 := exactTier(e, in.nAcc)
 	defect := e.Doc.Invalid
 	wf, why := wellFormed(e.Doc)
 	var modelAccepts bool
@@ -877,6 +964,11 @@ func judge(r *ev.Run, in *inst, hist []event, e event, accepted bool, err error,
 			r.Violation("C09|accepted-malformed|"+e.Kind+"|"+defect, fmt.Sprintf("%s is accepted although the document is not well-formed: %s", e, why), rcase)
 		case e.Kind == "create":
 			r.Violation("C09|create|accepted-thumbprint-mismatch", fmt.Sprintf("%s is accepted although the DID is not the thumbprint of the embedded key", e), rcase)
+		case tier2 && e.Sigt != "now":
+			_, off, _ := boundarySigt(e.Sigt)
+			when := map[int]string{0: "signing-time-equals-newest-event", 1: "signing-time-one-second-after-newest-event"}[off]
+			r.Violation("C09|update|accepted-unauthorised|latest-prevs|"+when+"|"+signerClass(m, e),
+				fmt.Sprintf("%s is accepted although the key is not a capabilityInvocation key of an active controller of the latest version (%s); the transaction names the latest version of every DID and is signed at %s", e, signerClass(m, e), when), rcase)
 		case tier2:
 			r.Violation("C09|update|accepted-unauthorised|latest-prevs|"+signerClass(m, e),
 				fmt.Sprintf("%s is accepted although the key is not a capabilityInvocation key of an active controller of the latest version (%s)", e, signerClass(m, e)), rcase)
@@ -888,7 +980,7 @@ func judge(r *ev.Run, in *inst, hist []event, e event, accepted bool, err error,
 		// inside the statement ("the version it succeeds"): known observation, never judged
 		kind := "accepted-naming-an-older-version-in-prevs|"
 		if e.Prevs == "latest" {
-			kind = "accepted-with-latest-prevs-and-backdated-signing-time|"
+			kind = "accepted-with-latest-prevs-and-a-signing-time-before-the-newest-event|"
 		}
 		r.Observation(kind+signerClass(m, e), map[string]any{"event": e.String(), "history": histKey(hist),
 			"note": "the latest-version model refuses this signer; the update succeeds an older version and is merged as a parallel branch"})
@@ -1105,6 +1197,38 @@ func TestVerifC09(t *testing.T) {
 		}
 		r.AddExtra(fmt.Sprintf("level_%d_states_of_this_worker", depth), int64(len(level)))
 		level = next
+	}
+	// structured start states: controller chains built directly (the BFS from the empty state reaches a chain of three
+	// with a deactivated tail only at depth 6-7). Each start state is probed and expanded by `extra` more levels.
+	extra := 1
+	if r.Thorough() {
+		extra = 2
+	}
+	starts := startStates(t)
+	r.Bound("structured_start_states", len(starts))
+	r.Bound("levels_below_start_states", extra)
+	for si, st := range starts {
+		if !r.Mine(si) || r.Expired() {
+			continue
+		}
+		local := map[string]bool{}
+		lvl := []node{st}
+		for depth := 0; depth <= extra && len(lvl) > 0; depth++ {
+			var next []node
+			for _, n := range lvl {
+				if r.Expired() {
+					break
+				}
+				succ, canons := explore(t, r, n, &cnt, true, depth < extra)
+				for i, s := range succ {
+					if !local[canons[i]] {
+						local[canons[i]] = true
+						next = append(next, s)
+					}
+				}
+			}
+			lvl = next
+		}
 	}
 	r.Bound("depth_of_building_history", maxDepth)
 	r.Bound("dids", nDIDs)
